@@ -69,29 +69,32 @@ Record keepA (s s' : pool) : Prop := mkKeepA {
   kA_id : s'.(infl_disc) = s.(infl_disc);
   kA_ready : exists add, s'.(ready) = s.(ready) ++ add /\ s'.(cur) = s.(cur) + cnt is_cstart add
       /\ cnt is_cfail add = 0 /\ cnt is_dwake add = 0 /\ cnt is_bstart add = 0;
-  kA_cap : s'.(cur) <= Z.max s.(cur) s.(maxc) }.
+  kA_cap : s'.(cur) <= Z.max s.(cur) s.(maxc);
+  kA_err : s.(err) = true -> s'.(err) = true }.
 
 Lemma keepA_refl s : keepA s s.
-Proof. split; try reflexivity; [exists []; rewrite app_nil_r, !cnt_nil; repeat split; lia | lia]. Qed.
+Proof. split; try reflexivity; [exists []; rewrite app_nil_r, !cnt_nil; repeat split; lia | lia | auto]. Qed.
 
 Lemma keepA_trans s1 s2 s3 : keepA s1 s2 -> keepA s2 s3 -> keepA s1 s3.
 Proof.
-  intros [a1 a2 a3 a4 (d1 & r1 & c1 & f1 & w1 & b1) p1] [e1 e2 e3 e4 (d2 & r2 & c2 & f2 & w2 & b2) p2].
+  intros [a1 a2 a3 a4 (d1 & r1 & c1 & f1 & w1 & b1) p1 q1] [e1 e2 e3 e4 (d2 & r2 & c2 & f2 & w2 & b2) p2 q2].
   split; try congruence.
   - exists (d1 ++ d2). rewrite r2, r1, app_assoc, !cnt_app. repeat split; lia.
   - rewrite a1 in *. lia.
+  - auto.
 Qed.
 
 (* a state that differs from s only in fields the counting invariants do not read *)
 Definition sameA (s s' : pool) : Prop :=
   s'.(maxc) = s.(maxc) /\ s'.(g_open) = s.(g_open) /\ s'.(infl_conn) = s.(infl_conn) /\
-  s'.(infl_disc) = s.(infl_disc) /\ s'.(ready) = s.(ready) /\ s'.(cur) = s.(cur).
+  s'.(infl_disc) = s.(infl_disc) /\ s'.(ready) = s.(ready) /\ s'.(cur) = s.(cur) /\
+  (s.(err) = true -> s'.(err) = true).
 Lemma sameA_keepA s0 s s' : sameA s s' -> keepA s0 s -> keepA s0 s'.
 Proof.
-  intros (h1 & h2 & h3 & h4 & h5 & h6) K. apply keepA_trans with s; [exact K|].
+  intros (h1 & h2 & h3 & h4 & h5 & h6 & h7) K. apply keepA_trans with s; [exact K|].
   split; try assumption; [exists []; rewrite app_nil_r, !cnt_nil; repeat split; try lia; congruence | lia].
 Qed.
-Ltac sameA_tac := unfold sameA; cbn; repeat split; reflexivity.
+Ltac sameA_tac := unfold sameA; cbn; repeat split; solve [reflexivity | auto].
 
 Lemma kA_upd s0 b s : keepA s0 s -> keepA s0 (upd b s).
 Proof. apply sameA_keepA. sameA_tac. Qed.
@@ -138,6 +141,7 @@ Proof.
     + apply Z0. intros k; unfold harmless; destruct (is_cstart k), (is_cfail k), (is_dwake k); cbn; congruence.
     + apply Z0. intros k; unfold harmless; destruct (is_cstart k), (is_cfail k), (is_dwake k), (is_bstart k); cbn; congruence.
   - lia.
+  - auto.
 Qed.
 Lemma kA_push s0 k s : harmless k = true -> keepA s0 s -> keepA s0 (push k s).
 Proof. intros H. unfold push. apply kA_append. cbn. rewrite H. reflexivity. Qed.
@@ -170,10 +174,11 @@ Proof.
   match goal with |- keepA _ (push _ ?x) => assert (E : sameA (set_cur (cur s + 1) s) x) end.
   { destruct (starving (set_cur (cur s + 1) (upd (set_b_pending (b_pending (get_blk i s) + 1) (get_blk i s)) s)));
       sameA_tac. }
-  destruct E as (h1 & h2 & h3 & h4 & h5 & h6). cbn in *.
+  destruct E as (h1 & h2 & h3 & h4 & h5 & h6 & h7). cbn in *.
   split; cbn; try congruence.
   - exists [KConnStart i]. rewrite h5, h6. rewrite !cnt_cons, !cnt_nil. cbn. repeat split; lia.
   - rewrite h6. lia.
+  - exact h7.
 Qed.
 Lemma kA_sched_transfer s0 f c t s : keepA s0 s -> keepA s0 (sched_transfer f c t s).
 Proof.
@@ -384,4 +389,188 @@ Proof.
   intros K. unfold run_gc.
   destruct (starving _); [apply kA_set_gc_timers, kA_set_gc_timers, K|].
   apply kA_gc_all. destruct (_ <? _); repeat first [apply kA_set_gc_timers | apply kA_set_gc_reqs]; exact K.
+Qed.
+
+(* ---- the counting invariants are preserved by keepA *)
+Lemma keepA_InvA s s' : keepA s s' -> InvA s -> InvA s'.
+Proof.
+  intros [a1 a2 a3 a4 (d & r & c & f & w & b) p q] I. unfold InvA, opening, lag in *.
+  rewrite a2, a3, r, !cnt_app. lia.
+Qed.
+Lemma keepA_InvB s s' : keepA s s' -> InvB s -> InvB s'.
+Proof.
+  intros [a1 a2 a3 a4 (d & r & c & f & w & b) p q] I. unfold InvB, nbroken in *.
+  rewrite a1, a4, r, !cnt_app.
+  assert (cnt is_bwake d = 0).
+  { pose proof (cnt_nonneg is_bwake d).
+    assert (cnt is_bwake d <= cnt is_dwake d) by (apply cnt_le; intros [] ; cbn; congruence). lia. }
+  pose proof (cnt_nonneg is_bstart (ready s)). pose proof (cnt_nonneg is_bwake (ready s)).
+  pose proof (zlen_nonneg (filter is_binfl (infl_disc s))). lia.
+Qed.
+
+Lemma aremove_len {A} k (l : list (N * A)) v : alookup k l = Some v -> zlen (aremove k l) = zlen l - 1.
+Proof.
+  induction l as [|[k' v'] l IH]; cbn [alookup aremove]; [discriminate|].
+  destruct (k =? k')%N; intros E; rewrite ?zlen_cons; [lia|]. rewrite (IH E). lia.
+Qed.
+Lemma aremove_filter {A} (f : N * A -> bool) k l v :
+  alookup k l = Some v -> zlen (filter f (aremove k l)) = zlen (filter f l) - b2z (f (k, v)).
+Proof.
+  induction l as [|[k' v'] l IH]; cbn [alookup aremove]; [discriminate|].
+  destruct (k =? k')%N eqn:E; intros H.
+  - inversion H; subst. apply N.eqb_eq in E; subst. cbn [filter]. destruct (f (k', v)); cbn [b2z]; rewrite ?zlen_cons; lia.
+  - cbn [filter]. destruct (f (k', v')); rewrite ?zlen_cons, (IH H); lia.
+Qed.
+Lemma remove1_len c l : In c l -> zlen (remove1 c l) = zlen l - 1.
+Proof.
+  induction l as [|y l IH]; cbn [remove1 In]; [tauto|].
+  destruct (c =? y)%N eqn:E; intros H; rewrite ?zlen_cons; [lia|].
+  destruct H as [->|H]; [rewrite N.eqb_refl in E; discriminate|]. rewrite (IH H). lia.
+Qed.
+
+(* every disconnect call in flight is for a connection that is open (proved in aspect 2) *)
+Definition discs_open (s : pool) : Prop :=
+  forall did c a, alookup did s.(infl_disc) = Some (c, a) -> In c s.(g_open).
+
+Definition Inv1 (s : pool) : Prop := InvA s /\ (s.(err) = false -> InvB s).
+
+Lemma keepA_Inv1 s s' : keepA s s' -> Inv1 s -> Inv1 s'.
+Proof.
+  intros K [A B]. split; [eapply keepA_InvA; eauto|]. intros E. eapply keepA_InvB; eauto.
+  apply B. destruct (err s) eqn:Es; [|reflexivity]. rewrite (kA_err _ _ K Es) in E. discriminate.
+Qed.
+
+Lemma sched_new_conn_fields i s :
+  let s' := sched_new_conn i s in
+  s'.(maxc) = s.(maxc) /\ s'.(g_open) = s.(g_open) /\ s'.(infl_conn) = s.(infl_conn) /\
+  s'.(infl_disc) = s.(infl_disc) /\ s'.(ready) = s.(ready) ++ [KConnStart i] /\
+  s'.(cur) = s.(cur) + 1 /\ s'.(err) = s.(err).
+Proof.
+  unfold sched_new_conn.
+  destruct (starving (set_cur (cur s + 1) (upd (set_b_pending (b_pending (get_blk i s) + 1) (get_blk i s)) s)));
+    cbn; repeat split; reflexivity.
+Qed.
+
+Lemma harmless_not_bwake k : harmless k = true -> is_bwake k = false.
+Proof. destruct k; cbn; try reflexivity. discriminate. Qed.
+
+Lemma Inv1_pop s k r :
+  Inv1 s -> s.(ready) = k :: r -> harmless k = true -> Inv1 (set_ready r (set_outs [] s)).
+Proof.
+  intros [A B] E H. pose proof (harmless_not_bwake _ H) as Hb.
+  unfold harmless in H. rewrite !andb_true_iff, !negb_true_iff in H. destruct H as [[[h1 h2] h3] h4].
+  split; [|intros Er; specialize (B Er)]; unfold InvA, InvB, opening, lag, nbroken in *; cbn;
+    rewrite E, !cnt_cons in *; rewrite ?h1, ?h2, ?h3, ?h4, ?Hb in *; cbn [b2z] in *; lia.
+Qed.
+
+Lemma step_Inv1 s e o s' :
+  discs_open s -> Inv1 s -> step s e o = Some s' -> Inv1 s'.
+Proof.
+  intros DO I St. destruct e; cbn [step] in St.
+  - (* EAcquire *)
+    destruct (_ =? _)%N; inversion St; subst. eapply keepA_Inv1; [|exact I].
+    apply kA_push; [reflexivity|]. eapply sameA_keepA; [|apply keepA_refl]. sameA_tac.
+  - destruct (_ =? _)%N; inversion St; subst. eapply keepA_Inv1; [|exact I].
+    apply kA_push; [reflexivity|]. eapply sameA_keepA; [|apply keepA_refl]. sameA_tac.
+  - (* ERelease *)
+    inversion St; subst; clear St.
+    assert (K0 : keepA s (set_outs [] s)) by (eapply sameA_keepA; [|apply keepA_refl]; sameA_tac).
+    unfold release. destruct (find_db d _) as [b|]; [|eapply keepA_Inv1; [apply kA_emit, K0|exact I]].
+    destruct (alookup c (b_conns b)) as [[|]|]; try (eapply keepA_Inv1; [apply kA_emit, K0|exact I]).
+    set (s1 := maybe_sched_tick _).
+    assert (K1 : keepA s s1) by (apply kA_maybe_sched_tick, kA_set_g_held, kA_upd, K0).
+    destruct (if should_free o (b_id b) s1 then maybe_free (b_id b) c s1 else (s1, false)) as [s2 moved] eqn:Em.
+    assert (K2 : keepA s s2).
+    { destruct (should_free o (b_id b) s1); [eapply kA_maybe_free; eauto|inversion Em; subst; exact K1]. }
+    destruct moved; [eapply keepA_Inv1; eauto|].
+    destruct discard; [|eapply keepA_Inv1; [apply kA_release_unused, K2|exact I]].
+    pose proof (keepA_Inv1 _ _ K2 I) as [A2 B2].
+    pose proof (sched_new_conn_fields (b_id b) (sched_discard (b_id b) c None true s2)) as (f1 & f2 & f3 & f4 & f5 & f6 & f7).
+    cbn zeta in *. split; [|intros Er; rewrite f7 in Er; cbn in Er; specialize (B2 Er)];
+      unfold InvA, InvB, opening, lag, nbroken in *; rewrite ?f1, ?f2, ?f3, ?f4, ?f5, ?f6; cbn;
+      rewrite !cnt_app, !cnt_cons, !cnt_nil; cbn [b2z is_cstart is_cfail is_dwake is_bstart is_bwake]; lia.
+  - (* EConnOk *)
+    destruct (alookup cid _) as [i|] eqn:El; inversion St; subst; clear St.
+    destruct I as [A B]. pose proof (aremove_len _ _ _ El) as L.
+    split; [|intros Er; specialize (B Er)]; unfold InvA, InvB, opening, lag, nbroken in *; cbn;
+      rewrite !cnt_app, !cnt_cons, !cnt_nil, ?zlen_cons; cbn [b2z is_cstart is_cfail is_dwake is_bstart is_bwake]; lia.
+  - (* EConnFail *)
+    destruct (alookup cid _) as [i|] eqn:El; inversion St; subst; clear St.
+    destruct I as [A B]. pose proof (aremove_len _ _ _ El) as L.
+    split; [|intros Er; specialize (B Er)]; unfold InvA, InvB, opening, lag, nbroken in *; cbn;
+      rewrite !cnt_app, !cnt_cons, !cnt_nil; cbn [b2z is_cstart is_cfail is_dwake is_bstart is_bwake]; lia.
+  - (* EDiscOk *)
+    destruct (alookup did _) as [[c a]|] eqn:El; inversion St; subst; clear St.
+    destruct I as [A B]. pose proof (remove1_len _ _ (DO _ _ _ El)) as L.
+    pose proof (aremove_filter is_binfl _ _ _ El) as F.
+    split; [|intros Er; specialize (B Er)]; unfold InvA, InvB, opening, lag, nbroken in *; cbn;
+      rewrite !cnt_app, !cnt_cons, !cnt_nil; cbn [b2z is_cstart is_cfail is_dwake is_bstart]; try lia.
+    rewrite F. unfold is_binfl. cbn [snd is_bwake]. destruct a as [to|p [|]]; cbn [b2z]; lia.
+  - (* EDiscFail *)
+    destruct (alookup did _) as [[c a]|] eqn:El; inversion St; subst; clear St.
+    destruct I as [A B]. pose proof (remove1_len _ _ (DO _ _ _ El)) as L.
+    pose proof (aremove_filter is_binfl _ _ _ El) as F.
+    split; [|intros Er; specialize (B Er)]; unfold InvA, InvB, opening, lag, nbroken in *; cbn;
+      rewrite !cnt_app, !cnt_cons, !cnt_nil; cbn [b2z is_cstart is_cfail is_dwake is_bstart]; try lia.
+    rewrite F. unfold is_binfl. cbn [snd is_bwake]. destruct a as [to|p [|]]; cbn [b2z]; lia.
+  - (* ETick *)
+    destruct (tick_armed _); inversion St; subst. eapply keepA_Inv1; [|exact I].
+    apply kA_tick. eapply sameA_keepA; [|apply keepA_refl]. sameA_tac.
+  - (* EGc *)
+    destruct (_ <? _); inversion St; subst. eapply keepA_Inv1; [|exact I].
+    apply kA_run_gc. eapply sameA_keepA; [|apply keepA_refl]. sameA_tac.
+  - (* ERun *)
+    cbn in St. destruct (ready s) as [|k r] eqn:Er; inversion St; subst; clear St.
+    set (s0 := set_ready r (set_outs [] s)).
+    assert (Hh : harmless k = true -> Inv1 s0) by (intros; eapply Inv1_pop; eauto).
+    destruct k; cbn [run_kont].
+    + eapply keepA_Inv1; [apply kA_acquire_start, keepA_refl|apply Hh; reflexivity].
+    + eapply keepA_Inv1; [apply kA_acquire_wake, keepA_refl|apply Hh; reflexivity].
+    + (* KConnStart *)
+      destruct I as [A B]. split; [|intros Ee; specialize (B Ee)];
+        unfold InvA, InvB, opening, lag, nbroken in *; cbn; rewrite Er, !cnt_cons in *;
+        rewrite ?zlen_app, ?zlen_cons, ?zlen_nil; cbn [b2z is_cstart is_cfail is_dwake is_bstart is_bwake] in *; lia.
+    + (* KConnWake *)
+      destruct res as [c|].
+      * eapply keepA_Inv1; [|apply Hh; reflexivity].
+        unfold connect_wake. apply kA_block_release, kA_upd, keepA_refl.
+      * unfold connect_wake.
+        set (s1 := set_cur (cur s0 - 1) s0).
+        assert (I1 : Inv1 s1).
+        { destruct I as [A B]. split; [|intros Ee; specialize (B Ee)];
+            unfold InvA, InvB, opening, lag, nbroken in *; cbn; rewrite Er, !cnt_cons in *;
+            cbn [b2z is_cstart is_cfail is_dwake is_bstart is_bwake] in *; lia. }
+        set (b := get_blk b0 s1). set (s2 := upd _ s1).
+        assert (K2 : keepA s1 s2) by (apply kA_upd, keepA_refl).
+        match goal with |- Inv1 (upd _ (if ?x then _ else _)) => destruct x end.
+        -- eapply keepA_Inv1; [|exact I1]. apply kA_upd, kA_abort_waiters, K2.
+        -- pose proof (keepA_Inv1 _ _ K2 I1) as [A2 B2].
+           pose proof (sched_new_conn_fields b0 s2) as (f1 & f2 & f3 & f4 & f5 & f6 & f7). cbn zeta in *.
+           assert (C2 : cur s2 = cur s0 - 1) by reflexivity.
+           destruct I as [A B].
+           split; [|intros Ee; cbn in Ee; rewrite f7 in Ee; specialize (B2 Ee); specialize (B Ee)];
+             unfold InvA, InvB, opening, lag, nbroken in *; cbn; rewrite ?f1, ?f2, ?f3, ?f4, ?f5, ?f6;
+             rewrite !cnt_app, !cnt_cons, !cnt_nil; cbn [b2z is_cstart is_cfail is_dwake is_bstart is_bwake];
+             cbn in A, B; rewrite Er, !cnt_cons in A, B; cbn [b2z is_cstart is_cfail is_dwake is_bstart is_bwake] in A, B;
+             try lia.
+    + (* KTransStart *)
+      pose proof (Hh eq_refl) as [A B]. split; [|intros Ee; specialize (B Ee)];
+        unfold InvA, InvB, opening, lag, nbroken in *; cbn in *; rewrite ?filter_app, ?zlen_app; cbn; try lia.
+    + (* KDiscStart *)
+      unfold discard_start. destruct (alookup c _) as [[|]|]; try (split; [|cbn; discriminate]).
+      1,3: (destruct I as [A _]; unfold InvA, opening, lag in *; cbn; rewrite Er, !cnt_cons in A; cbn [b2z is_cstart is_cfail is_dwake] in A; lia).
+      destruct I as [A B]. split; [|intros Ee; specialize (B Ee)];
+        unfold InvA, InvB, opening, lag, nbroken in *; cbn in *; rewrite Er, !cnt_cons in *;
+        rewrite ?filter_app, ?zlen_app; cbn [filter is_binfl snd];
+        destruct broken; cbn [b2z is_cstart is_cfail is_dwake is_bstart is_bwake zlen length app] in *; try lia.
+    + (* KDiscWake *)
+      destruct I as [A B]. unfold disconnect_wake.
+      destruct a as [to|[t|] br]; (split; [|intros Ee; specialize (B Ee)]);
+        unfold InvA, InvB, opening, lag, nbroken in *; cbn in *; rewrite Er, !cnt_cons in *;
+        rewrite ?cnt_app, ?cnt_cons, ?cnt_nil, ?zlen_app, ?zlen_cons, ?zlen_nil;
+        try destruct br; cbn [b2z is_cstart is_cfail is_dwake is_bstart is_bwake] in *; lia.
+    + eapply keepA_Inv1; [apply kA_prune_start, keepA_refl|apply Hh; reflexivity].
+    + eapply keepA_Inv1; [apply kA_prune_wake, keepA_refl|apply Hh; reflexivity].
+    + eapply keepA_Inv1; [apply kA_gather_cb, keepA_refl|apply Hh; reflexivity].
+    + eapply keepA_Inv1; [apply kA_emit, keepA_refl|apply Hh; reflexivity].
 Qed.
